@@ -78,6 +78,7 @@ func runDescribe(e *Env) {
 	var reqFrom *net.UDPAddr
 	// responses that are well formed by construction, whatever the library's decoder makes of them (raw bytes -> friendly name)
 	wellFormed := map[string]string{}
+	famCount := map[string]int{}   // frames built here -> number of service families they announce
 	illFormed := map[string]bool{} // frames that are malformed by construction, whatever the decoder makes of them
 	var reqs [][]byte
 	s.Spawn("server-rx", func() {
@@ -132,9 +133,13 @@ func runDescribe(e *Env) {
 			good := mkFrame(svcDescrRes, append(append(mkDeviceDIB(devName), mkFamDIB(1+i%4)...), extra...))
 			other := mkFrame(svcDescrRes, append(append(mkDeviceDIB(fmt.Sprintf("x%d", i)), mkFamDIB(2)...), bytesOf(0x55, len(extra))...))
 			if discover {
-				good = mkFrame(svcSearchRes, append(append(mkHPAI(1, [4]byte{10, 0, 1, byte(i)}, 3671), mkDeviceDIB(devName)...), mkFamDIB(1+i%4)...))
+				good = mkFrame(svcSearchRes, append(append(append(mkHPAI(1, [4]byte{10, 0, 1, byte(i)}, 3671), mkDeviceDIB(devName)...), mkFamDIB(1+i%4)...), extra...))
+				if len(extra) > 0 {
+					e.Fault("search-response-with-further-blocks")
+				}
 			}
 			wellFormed[string(good)], wellFormed[string(other)] = devName, fmt.Sprintf("x%d", i)
+			famCount[string(good)], famCount[string(other)] = 1+i%4, 2
 			send := func(b []byte) { srv.WriteToUDP(b, to) }
 			noise := func() {
 				switch e.Choose("wl.noise", 7) {
@@ -346,6 +351,7 @@ func runDescribe(e *Env) {
 	deadline := start.T + timeout
 	if discover {
 		var must, may []*knxnet.SearchRes
+		var mayRaw []string
 		for _, r := range reads {
 			if illFormed[string(r.raw)] {
 				if svc, _, derr, p := refDecode(r.raw); derr == nil && p == "" {
@@ -377,6 +383,7 @@ func runDescribe(e *Env) {
 				continue
 			}
 			may = append(may, sr)
+			mayRaw = append(mayRaw, string(r.raw))
 			if r.at.T < deadline-eps {
 				must = append(must, sr)
 			}
@@ -391,6 +398,10 @@ func runDescribe(e *Env) {
 					e.Violate("C20", "discover-result-differs", "Discover's result #%d is %s, the response read #%d was %s", i, dump(resS[i]), i, dump(may[i]))
 					break
 				}
+				if n, ok := famCount[mayRaw[i]]; ok && len(resS[i].DescriptionB.SupportedServices.Families) != n {
+					e.Violate("C20", "discover-result-content", "Discover's result #%d lists %d service families, the response it was read from announces %d: %s", i, len(resS[i].DescriptionB.SupportedServices.Families), n, dump(resS[i]))
+					break
+				}
 			}
 		}
 		if el < timeout-eps {
@@ -402,6 +413,7 @@ func runDescribe(e *Env) {
 	} else {
 		var first *knxnet.DescriptionRes
 		var firstAt Stamp
+		firstRaw := ""
 		for _, r := range reads {
 			if illFormed[string(r.raw)] {
 				if svc, _, derr, p := refDecode(r.raw); derr == nil && p == "" && resD != nil && reflect.DeepEqual(svc, resD) {
@@ -420,7 +432,7 @@ func runDescribe(e *Env) {
 				}
 			}
 			if dr, ok := svc.(*knxnet.DescriptionRes); ok {
-				first, firstAt = dr, r.at
+				first, firstAt, firstRaw = dr, r.at, string(r.raw)
 				break
 			}
 		}
@@ -428,6 +440,8 @@ func runDescribe(e *Env) {
 		case resD != nil:
 			if first == nil || !reflect.DeepEqual(resD, first) {
 				e.Violate("C20", "describe-result-differs", "DescribeTunnel returned %s, the first description response read was %s", dump(resD), dump(first))
+			} else if n, ok := famCount[firstRaw]; ok && len(resD.SupportedServices.Families) != n {
+				e.Violate("C20", "describe-result-content", "DescribeTunnel's result lists %d service families, the response it was read from announces %d: %s", len(resD.SupportedServices.Families), n, dump(resD))
 			} else if ret.T-firstAt.T > eps {
 				e.Violate("C20", "returned-late", "DescribeTunnel returned %v after the response was read", ret.T-firstAt.T)
 			}
